@@ -113,6 +113,10 @@ class Net:
     def push(self, pipe, chunk):
         sim = self.sim
         cfg = self.cfg
+        if pipe.blackhole:
+            # already stalled: nothing gets through any more (a second fault on this pipe has nothing left to cut)
+            pipe.sent += len(chunk)
+            return
         # byte-offset faults
         for f in list(pipe.faults):
             at = f["at"]
